@@ -99,7 +99,8 @@ def gen(t, tier):
                 sc['ops'].append(['thr', {'kind': 'rel', 'unit': t.pick(['seconds', 'seconds', 'minutes', 'hours', 'days', 'weeks']),
                                           'n': t.pick([0, 1, 2, 5, 60])}])
             elif kind == 'time':
-                sc['ops'].append(['thr', {'kind': 'time', 'offset': t.pick([-3600, -5, -2, -1, 0, 1, 5])}])
+                sc['ops'].append(['thr', {'kind': 'time', 'offset': t.pick([-3600, -5, -2, -1, 0, 1, 5]),
+                                          'as_datetime': bool(t.chance(0.4))}])
             else:
                 sc['ops'].append(['thr', {'kind': kind}])
         elif k == 'touch':
@@ -377,7 +378,12 @@ def _run(sc, tape):
                 t = dict(op[1])
                 if t['kind'] == 'time':
                     t['abs'] = int(clock.now) + t['offset']
-                    tm._refresh_before = {'time': _iso(t['abs'])}
+                    if t.get('as_datetime'):
+                        import datetime as _dt
+                        # an unquoted YAML timestamp arrives as a (naive, local time) datetime object
+                        tm._refresh_before = {'time': _dt.datetime.fromtimestamp(t['abs'])}
+                    else:
+                        tm._refresh_before = {'time': _iso(t['abs'])}
                 elif t['kind'] == 'rel':
                     tm._refresh_before = {t['unit']: t['n']}
                 elif t['kind'] == 'mtime':
